@@ -128,6 +128,7 @@ let rop = function
   | App [Id "OSubStatus"; a; b; c; d] -> OSubStatus (rz a, rz b, rz c, rz d)
   | App [Id "OPathAppend"; p; v] -> OPathAppend (rzl p, rz v)
   | App [Id "OAliasAttr"; a; p] -> OAliasAttr (rz a, rzl p)
+  | App [Id "OReplaceSeries"; a; l] -> OReplaceSeries (rz a, rzl l)
   | x -> bad "op" x
 let rops = function
   | Lst l -> List.map rop l
@@ -147,6 +148,9 @@ let revent = function
 let rhevent = function
   | App [Id "HOps"; i; os] -> HOps (rnat i, rops os)
   | App [Id "HEv"; e] -> HEv (revent e)
+  | App [Id "HCopySeries"; i; j; a; b] -> HCopySeries (rnat i, rnat j, rz a, rz b)
+  | App [Id "HAddVarFrom"; i; j; a; b] -> HAddVarFrom (rnat i, rnat j, rz a, rz b)
+  | App [Id "HInitFrom"; c; ia; j; a; b] -> HInitFrom (rnat c, riargs ia, rnat j, rz a, rz b)
   | x -> bad "hevent" x
 let rec rctree = function
   | Id "CCut" -> CCut
